@@ -45,7 +45,7 @@ RULE = ("each run draws an upstream behaviour - a complete response (every statu
 PROBES = ["non_utf8_text_relayed", "binary_relayed", "redirect_relayed", "refused", "blackhole",
           "tls_failure", "close_before_header", "close_inside_header", "garbage_header",
           "rst_in_body", "stall_timeout", "oversized", "downstream_left_early",
-          "start_server_assembly", "every_status_class"]
+          "start_server_assembly", "every_status_class", "concurrent_requests_through_proxy"]
 COMPONENTS = {
     "real": ["nauyaca.server.proxy.ProxyHandler", "nauyaca.client.session/protocol inside the proxy",
              "nauyaca.server.protocol (+ tls_protocol / start_server / router for the TLS share)",
@@ -215,9 +215,27 @@ def run_one(ch):
         script.append(("send", c))
     script.append(("call", lambda p: marks.setdefault("t_end", net.now)))
     script.append({"close": ("close",), "fin": ("fin",), "rst": ("rst",), "stall": ("stall",)}[up["end"]])
+    # concurrent "noise" requests through the same proxy (one shared client inside it)
+    noise_n = 0
+    if up["beh"] not in (1, 2, 3) and not up.get("stall_handshake") and script[:1] == [("wait_line",)] \
+            and ch.chance("noise", 0.3):
+        noise_n = 1 + ch.choose("noisen", 3)
+        main_tail = script[1:]
+
+        def dispatch(peer):
+            line = bytes(peer.rx_plain).split(b"\r\n")[0]
+            if b"/noise" in line:
+                j = line.rsplit(b"/noise", 1)[1][:2].decode("ascii", "replace")
+                peer.script[peer.pc:] = [("sleep", 0.01 * (1 + len(j))),
+                                         ("send", b"20 text/plain\r\nnoise " + j.encode() + b"\n"),
+                                         ("close",)]
+            else:
+                peer.script[peer.pc:] = list(main_tail)
+        script = [("wait_line",), ("call", dispatch)]
+        res.stats["concurrent_requests_through_proxy"] += 1
     upstream = None
     if up["beh"] != 1:
-        upstream = ScriptedServer(sim, UP, up_port, "rsa2", lambda i, s: {"script": script},
+        upstream = ScriptedServer(sim, UP, up_port, "rsa2", lambda i, s: {"script": list(script)},
                                   tls=(up["beh"] != 3))
     decoy = ScriptedServer(sim, "decoy.sim", 1965, "rsa3", lambda i, s: {"script": [("stall",)]})
     pol = DrawnPolicy(ch, "up.s2c", segmode, latency=0.001, delays=[0.001, 0.0, 0.02],
@@ -265,6 +283,13 @@ def run_one(ch):
         dscript = [("send", f"gemini://{PROXY}{req_path}".encode() + b"\r\n")]
         if leave is not None:
             dscript += [("sleep", leave), ("rst",) if ch.choose("leavehow", 2) else ("fin",)]
+        noise = []
+        for j in range(noise_n):
+            nep = raw_connect(net, PROXY, 1965, src=("10.0.1.%d" % (j + 1), 51000 + j), tag=f"noise{j}")
+            noise.append(RawPeer(net, nep, [("sleep", ch.pick("noisedelay", [0.0, 0.001, 0.005])),
+                                            ("send", f"gemini://{PROXY}/noise{j}".encode() + b"\r\n")],
+                                 tls_ctx=sw.peer_tls_ctx(mode), name=f"noise{j}"))
+        out["noise"] = noise
         ep = raw_connect(net, PROXY, 1965, c2s=WholePolicy(0.001), s2c=WholePolicy(0.001), tag="down")
         peer = RawPeer(net, ep, dscript, tls_ctx=sw.peer_tls_ctx(mode), name="downstream")
         out["peer"] = peer
@@ -300,10 +325,19 @@ def run_one(ch):
                t_upstream_end=marks.get("t_end"), downstream_leaves=leave,
                upstream_connections=nup, request_path=req_path)
     site = f"{up['name'].split('+')[0].split('/')[0]}/{mode}"
+    for j, npeer in enumerate(out.get("noise", [])):
+        npeer.drain_final()
+        want_n = b"20 text/plain\r\nnoise " + str(j).encode() + b"\n"
+        if bytes(npeer.rx_plain) != want_n:
+            res.violate(f"C18/concurrent-request-cross-talk/{mode}",
+                        f"a concurrent request through the same proxy location (/noise{j}) did not "
+                        f"get its own upstream's answer", got=bytes(npeer.rx_plain)[:120],
+                        want=want_n, **ctx)
     if decoy.conns:
         res.violate("C18/decoy-contacted", "the proxy connected to a host that is not its upstream",
                     **ctx)
     attempts = [c for c in net.connect_log if c[1] == UP]
+    attempts = attempts[:max(0, len(attempts) - noise_n)] if noise_n else attempts
     # "relayed, never followed": after an upstream redirect (or any complete answer)
     # no second upstream connection; retrying a failed connect is not forbidden
     if len(attempts) != 1 and (up["must"] == "verbatim" or len(attempts) == 0 or len(attempts) > 3):
